@@ -112,7 +112,8 @@ enum { kAllowInPlace = 1 };
 #endif
 enum { MAXP = 3, MAXT = 8 };
 struct SModel { char b[96]; int n; };
-struct VModel { int kind; /* 0 string 1 list */ char b[96]; int n; long items[40]; int ni; };
+enum { VITEMS = 400 };
+struct VModel { int kind; /* 0 string 1 list 2 array 3 map (keys "k<index>" in insertion order) */ char b[96]; int n; long items[VITEMS]; int ni; };
 struct XModel { int kind; /* 0 element 1 text */ long line; char b[40]; int n; };
 struct Slot { String s; SModel sm; Variant v; VModel vm; PP p; long pm; Xml::Variant x; XModel xm; bool full; };
 static Slot* g_mail; static pthread_mutex_t g_mailLock = PTHREAD_MUTEX_INITIALIZER;
@@ -130,8 +131,13 @@ static void checkS(const String& s, const SModel& m, const char* what) {
 }
 static void checkV(const Variant& v, const VModel& m, const char* what) {
   if (m.kind == 0) { const String& s = ((const Variant&)v).toString(); if (v.getType() != Variant::stringType || s.length() != (usize)m.n || memcmp((const char*)s, m.b, (size_t)m.n) != 0) fail("Variant/shared-payload/foreign-modification", "%s: string Variant differs from this thread's model", what); }
-  else { if (v.getType() != Variant::listType) fail("Variant/shared-payload/foreign-modification", "%s: Variant is no longer a list", what); const List<Variant>& l = ((const Variant&)v).toList(); if (l.size() != (usize)m.ni) fail("Variant/shared-payload/foreign-modification", "%s: list Variant has %lu items, this thread's model %d", what, (unsigned long)l.size(), m.ni);
+  else if (m.kind == 1) { if (v.getType() != Variant::listType) fail("Variant/shared-payload/foreign-modification", "%s: Variant is no longer a list", what); const List<Variant>& l = ((const Variant&)v).toList(); if (l.size() != (usize)m.ni) fail("Variant/shared-payload/foreign-modification", "%s: list Variant has %lu items, this thread's model %d", what, (unsigned long)l.size(), m.ni);
     int k = 0; for (List<Variant>::Iterator it = l.begin(), e = l.end(); it != e; ++it, ++k) if (it->toInt64() != m.items[k]) fail("Variant/shared-payload/foreign-modification", "%s: list item %d is %lld, model %ld", what, k, (long long)it->toInt64(), m.items[k]); }
+  else if (m.kind == 2) { if (v.getType() != Variant::arrayType) fail("Variant/shared-payload/foreign-modification", "%s: Variant is no longer an array", what); const Array<Variant>& l = ((const Variant&)v).toArray(); if (l.size() != (usize)m.ni) fail("Variant/shared-payload/foreign-modification", "%s: array Variant has %lu items, this thread's model %d", what, (unsigned long)l.size(), m.ni);
+    for (int k = 0; k < m.ni; ++k) if (l[(usize)k].toInt64() != m.items[k]) fail("Variant/shared-payload/foreign-modification", "%s: array item %d is %lld, model %ld", what, k, (long long)l[(usize)k].toInt64(), m.items[k]); }
+  else { if (v.getType() != Variant::mapType) fail("Variant/shared-payload/foreign-modification", "%s: Variant is no longer a map", what); const HashMap<String, Variant>& l = ((const Variant&)v).toMap(); if (l.size() != (usize)m.ni) fail("Variant/shared-payload/foreign-modification", "%s: map Variant has %lu items, this thread's model %d", what, (unsigned long)l.size(), m.ni);
+    int k = 0; char kb[16]; for (HashMap<String, Variant>::Iterator it = l.begin(), e = l.end(); it != e; ++it, ++k) { int kn = snprintf(kb, sizeof kb, "k%d", k);
+      if (it.key().length() != (usize)kn || memcmp((const char*)it.key(), kb, (size_t)kn) != 0 || it->toInt64() != m.items[k]) fail("Variant/shared-payload/foreign-modification", "%s: map entry %d is (%.12s, %lld), model (%s, %ld)", what, k, (const char*)it.key(), (long long)it->toInt64(), kb, m.items[k]); } }
 }
 
 static void checkX(const Xml::Variant& x, const XModel& m, const char* what) {
@@ -179,7 +185,12 @@ static void* concMain(void* a) {
     else if (k < 55) { t.v[i] = t.v[j]; t.vm[i] = t.vm[j]; }
     else if (k < 64) { VModel& m = t.vm[i]; ++t.mods;
       if (m.kind == 0) { if (m.n < 90) { char c = (char)('A' + r.below(26)); t.v[i].toString().append(c); m.b[m.n++] = c; } else { t.v[i] = t.v[j]; m = t.vm[j]; } }
-      else { if (m.ni < 38) { long x = (long)r.below(1000000); t.v[i].toList().append(Variant((int64)x)); m.items[m.ni++] = x; } else { t.v[i] = t.v[j]; m = t.vm[j]; } } }
+      else if (m.ni >= VITEMS - 2) { t.v[i] = t.v[j]; m = t.vm[j]; }
+      else { long x = (long)r.below(1000000);
+        if (m.kind == 1) t.v[i].toList().append(Variant((int64)x));
+        else if (m.kind == 2) t.v[i].toArray().append(Variant((int64)x));
+        else { char kb[16]; int kn = snprintf(kb, sizeof kb, "k%d", m.ni); t.v[i].toMap().append(String(kb, (usize)kn), Variant((int64)x)); }
+        m.items[m.ni++] = x; } }
     else if (k < 70) checkV(t.v[i], t.vm[i], "read");
     else if (k < 78) { PP tmp(t.p[i]); hold(t.pm[i]); checkPtr(tmp, t.pm[i], "temporary copy"); drop(t.pm[i]); }
     else if (k < 84) { if (i != j) { drop(t.pm[i]); t.p[i] = t.p[j]; t.pm[i] = t.pm[j]; hold(t.pm[i]); } }
@@ -216,9 +227,14 @@ static void conc() {
     String* os = new String[MAXP]; SModel osm[MAXP]; Variant* ov = new Variant[MAXP]; VModel ovm[MAXP]; PP* op = new PP[MAXP]; long opm[MAXP]; Xml::Variant* ox = new Xml::Variant[MAXP]; XModel oxm[MAXP];
     for (int i = 0; i < P; ++i) {
       osm[i].n = (int)r.range(1, 40); for (int k = 0; k < osm[i].n; ++k) osm[i].b[k] = (char)('a' + r.below(26)); os[i] = String(osm[i].b, (usize)osm[i].n);
-      memset(&ovm[i], 0, sizeof ovm[i]); ovm[i].kind = (int)r.below(2);
+      memset(&ovm[i], 0, sizeof ovm[i]); ovm[i].kind = (int)r.below(4);
       if (ovm[i].kind == 0) { ovm[i].n = (int)r.range(1, 40); for (int k = 0; k < ovm[i].n; ++k) ovm[i].b[k] = (char)('A' + r.below(26)); ov[i] = Variant(String(ovm[i].b, (usize)ovm[i].n)); }
-      else { ovm[i].ni = (int)r.range(0, 8); List<Variant>& l = ov[i].toList(); for (int k = 0; k < ovm[i].ni; ++k) { ovm[i].items[k] = (long)r.below(1000); l.append(Variant((int64)ovm[i].items[k])); } }
+      else { ovm[i].ni = r.chance(1, 4) ? (int)r.range(150, VITEMS - 60) : (int)r.range(0, 8);   // some large containers: copying them takes long enough for another thread to act meanwhile
+        for (int k = 0; k < ovm[i].ni; ++k) ovm[i].items[k] = (long)r.below(1000);
+        if (ovm[i].kind == 1) { List<Variant>& l = ov[i].toList(); for (int k = 0; k < ovm[i].ni; ++k) l.append(Variant((int64)ovm[i].items[k])); }
+        else if (ovm[i].kind == 2) { Array<Variant>& l = ov[i].toArray(); for (int k = 0; k < ovm[i].ni; ++k) l.append(Variant((int64)ovm[i].items[k])); }
+        else { HashMap<String, Variant>& l = ov[i].toMap(); char kb[16]; for (int k = 0; k < ovm[i].ni; ++k) { int kn = snprintf(kb, sizeof kb, "k%d", k); l.append(String(kb, (usize)kn), Variant((int64)ovm[i].items[k])); } }
+        cnt(ovm[i].kind == 1 ? "variant_list_payloads" : ovm[i].kind == 2 ? "variant_array_payloads" : "variant_map_payloads"); }
       Pay* n = r.chance(1, 2) ? new Pay : (Pay*)new PayD; op[i] = n; opm[i] = n->id; hold(opm[i]);
       memset(&oxm[i], 0, sizeof oxm[i]); oxm[i].kind = (int)r.below(3) ? 0 : 1; oxm[i].n = (int)r.range(1, 12); for (int k = 0; k < oxm[i].n; ++k) oxm[i].b[k] = (char)('a' + r.below(26));
       if (oxm[i].kind == 0) { Xml::Element e; e.line = (int)(oxm[i].line = (long)r.below(1000)); e.column = 1; e.type = String(oxm[i].b, (usize)oxm[i].n); e.attributes.append("k", "v"); ox[i] = Xml::Variant(e); } else ox[i] = Xml::Variant(String(oxm[i].b, (usize)oxm[i].n));
